@@ -325,15 +325,22 @@ type c06Obs struct {
 	rcptErr  map[string]error
 	bodyErr  error
 	statuses map[string]error
+	statusGap string
 	bodyRun  bool
 	panicked any
 }
 
-type c06Status struct{ m map[string]error }
+type c06Status struct {
+	m     map[string]error
+	fails map[string]int // failing statuses per address (an address may be named by several RCPT commands)
+}
 
 func (s *c06Status) SetStatus(r string, err error) {
 	if err != nil {
 		s.m[r] = err
+		if s.fails != nil {
+			s.fails[r]++
+		}
 	}
 }
 
@@ -387,8 +394,22 @@ func c06Scenario(c c06Case, limit int) vx.ScheduleScenario {
 				body := buffer.MemoryBuffer{Slice: []byte("hi\r\n")}
 				obs.bodyRun = true
 				if c.NonAtomic {
-					sc := &c06Status{obs.statuses}
+					sc := &c06Status{obs.statuses, map[string]int{}}
 					d.(module.PartialDelivery).BodyNonAtomic(ctx, sc, hdr, body)
+					// an address named by k accepted RCPT commands is owed k results: a refusal
+					// reported for it must be reported k times (the server answers every command;
+					// what is not reported is filled in as success)
+					named := map[string]int{}
+					for _, r := range c.Rcpts {
+						if obs.rcptErr[r] == nil {
+							named[r]++
+						}
+					}
+					for r, k := range named {
+						if n := sc.fails[r]; n != 0 && n != k {
+							obs.statusGap = fmt.Sprintf("%s was named by %d accepted RCPT commands and got %d failure statuses (%v)", r, k, n, obs.statuses[r])
+						}
+					}
 					failed := 0
 					for _, r := range c.Rcpts {
 						if obs.rcptErr[r] == nil && obs.statuses[r] != nil {
@@ -419,6 +440,9 @@ func c06Scenario(c c06Case, limit int) vx.ScheduleScenario {
 				}
 				if o.Deadlock || o.StepCap {
 					return "C06:hang", strings.Join(o.Blocked, "; ")
+				}
+				if obs.statusGap != "" {
+					return "C06:refusal-not-reported-for-every-rcpt-command", obs.statusGap + fmt.Sprintf("\nplacement %+v verdicts {%s} recipients %v", c.Placement, c06VerdictString(c.Verdicts), c.Rcpts)
 				}
 				fp, detail := c06Judge(c, w, obs)
 				if fp == "" {
@@ -733,7 +757,7 @@ func TestVerifC06(t *testing.T) {
 		p.NullSender = true
 		placements = append(placements, p)
 	}
-	envs := [][]string{{"ra@a.example"}, {"ra@a.example", "rb@b.example"}, {"rb@b.example", "ra@a.example"}}
+	envs := [][]string{{"ra@a.example"}, {"ra@a.example", "rb@b.example"}, {"rb@b.example", "ra@a.example"}, {"ra@a.example", "ra@a.example"}}
 	if vx.Thorough() {
 		envs = append(envs, []string{"ra@a.example", "ra2@a.example", "rb@b.example"})
 	}
